@@ -1051,10 +1051,11 @@ class Splicer:
         g = self.g
         self.hoisted = []
         self.discover()
-        for f0 in list(self.anch):
-            self.find_new_fns(f0)
         for gen_fn in u.generators:
             gen_fn(self)
+        # (after the generators: a function that received an automatic contract - the uniform grammar contract of unit SYN - is known)
+        for f0 in list(self.anch):
+            self.find_new_fns(f0)
         root_pieces = self.process_file(u.root_file) if u.root_file else [('ins', getattr(u, 'root_text', ''), {'glue': 'synthetic root'})]
         for (xf, modname) in u.extra_files:
             sub = self.process_file(xf)
